@@ -523,13 +523,28 @@ func (w *c19World) verdict(q *pb.QuoteV4, qkey string, paths, bundles []string, 
 	}
 	w.inproc++
 	res, _ := hx.Guard(func() string {
-		opts, err := verify.RootOfTrustToOptions(&ccpb.RootOfTrust{CabundlePaths: w.realPaths(paths), Cabundles: w.realPems(bundles), CheckCrl: crl, GetCollateral: gc})
-		if err != nil {
-			return "rotbad"
+		// the effective root of trust, built here from the statement (exactly the certificates the bundles list; the embedded
+		// root when nothing is listed; an unreadable or certificate-free bundle is a usage error), not by the library's own
+		// root-of-trust conversion — that function is part of what the tool's exit code depends on
+		var pool *x509.CertPool
+		rp, rb := w.realPaths(paths), w.realPems(bundles)
+		if len(rp)+len(rb) > 0 {
+			pool = x509.NewCertPool()
+			for _, p := range rp {
+				b, err := os.ReadFile(p)
+				if err != nil || !pool.AppendCertsFromPEM(b) {
+					return "rotbad"
+				}
+			}
+			for _, t := range rb {
+				if !pool.AppendCertsFromPEM([]byte(t)) {
+					return "rotbad"
+				}
+			}
 		}
 		g := &c19Getter{local: local}
-		opts.Getter = g
-		err = verify.TdxQuote(proto.Clone(q), opts)
+		opts := &verify.Options{TrustedRoots: pool, CheckRevocations: crl, GetCollateral: gc, Getter: g}
+		err := verify.TdxQuote(proto.Clone(q), opts)
 		if err == nil {
 			return "ok"
 		}
